@@ -918,7 +918,7 @@ def client_context(
         Client: initialized pyrtma Client object
     """
     c = Client(module_id, host_id, timecode, name=name)
-    c.connect(server_name, logger_status, allow_multiple)
+    c.connect(server_name, logger_status=logger_status, allow_multiple=allow_multiple)
     if msg_list:
         c.subscribe(msg_list)
     c.send_module_ready()
